@@ -211,6 +211,7 @@ def check_entry(ctx):
     ev = nt = 0
     U = dict(pressure_mode='relative', loading_basis='volume_liquid', loading_unit='cm3', material_basis='mass', material_unit='g')
     base = list(pygaps.ADSORBATE_LIST)
+    keeper = core.ResultKeeper()
     try:
         for prname, pr in PROPS.items():
             aname = {'N2@77': 'N2', 'Ar@87': 'Ar'}.get(prname)
@@ -258,6 +259,7 @@ def check_entry(ctx):
                                 continue
                             nt += 1
                             r = o.value
+                            keeper.add(f'psd_mesoporous({method},{pore},{branch},{lim}) on {prname}/{gname}', r)
                             from pygaps.characterisation.models_kelvin import get_meniscus_geometry
                             men = get_meniscus_geometry(branch, pore)
                             ps = p[idx]
@@ -304,6 +306,15 @@ def check_entry(ctx):
                                                     f'do not follow the Kelvin equation for the current properties ({w[:3]})', {'second': second}))
     finally:
         pygaps.ADSORBATE_LIST[:] = base
+    # every result returned above is still what it was when it was returned (the analyses that followed did not write into it)
+    ch = keeper.changed()
+    ev += len(keeper.items)
+    nt += len(keeper.items)
+    if ch:
+        i, desc = ch[0]
+        ctx.violate(core.make_violation({'check': 'earlier-result-rewritten'},
+                                        f'{len(ch)} of {len(keeper.items)} results of psd_mesoporous were rewritten by later calls; first: result {i}, {desc} '
+                                        f'(followed by {keeper.items[i + 1][0] if i + 1 < len(keeper.items) else "the re-definition sequence"})', {'count': len(ch)}))
     ctx.add('isotherm_entry', ev, nt)
 
 
